@@ -108,7 +108,8 @@ def phase_discipline(exp, flat):
             n = len(g.calls)
         else:
             # variable-length groups: consume while members
-            mem = ({c.cid for c in g.calls} | set(g.required) | set(g.optional))
+            mem = ({c.cid for c in g.calls} | set(g.required) | set(g.optional)
+                   | set(g.siblings))
             while i + n < len(flat) and flat[i + n].cid in mem and n < len(mem):
                 n += 1
         chunk = flat[i:i + n]
